@@ -149,5 +149,12 @@ def finish(ctx: Ctx, floor: int, explanation: str, rule_text: str, evidence_path
             print(f"  [{o.rule}] {o.instance} at {o.where}\n      {o.detail}\n      construct: {o.construct}")
         print(f"VIOLATION property={ctx.prop} replay={rp}")
         return 1
+    # a replay file left by an earlier violating run does not describe this tree any more
+    stale = os.path.join(os.path.dirname(evidence_path), f"{ctx.prop}.violations.json")
+    if os.path.exists(stale):
+        try:
+            os.remove(stale)
+        except OSError:
+            pass
     print(f"OK property={ctx.prop} tier={ctx.tier} instances={n} discharged={discharged} known={len(kn)} functions={len(ctx.functions)} wall={wall:.2f}s")
     return 0
